@@ -17,7 +17,12 @@
 //         key%1000 == 0 is the EMPTY key string.
 //   val:  -1 = the user function returns a nil value (kinds 0, 1, 3, 4)
 //   err:  0 = nil, > 0 = that error code (9 = the cache node's not-found error, 19 = the same
-//         wrapped with %w), -2 = the user function PANICS (after its gate).
+//         wrapped with %w; 30 = context.Canceled, 31 = context.DeadlineExceeded themselves, 32 / 33 =
+//         the same wrapped with %w: reported as 30 / 31), -2 = the user function PANICS (after its gate).
+//   ctx:  optional 5th component, cache node Take kinds only: the caller's own context.
+//         0 = none (Take / TakeWithExpire), 1 = a live context (TakeCtx / TakeWithExpireCtx),
+//         2 = cancelled while its loader runs (after the gate), 3 = its deadline passes while its loader
+//         runs, 4 = already done when the call is made (event "ctxdone").
 // Events (logical clock): inv (call invoked), fs / fe (user function started / ended),
 //   ret [val, err, fresh] (call returned; err -2 = the call panicked), del, fault.
 //   The user function parks at gate "fn" between fs and fe.
@@ -28,6 +33,7 @@
 package main
 
 import (
+	"context"
 	"errors"
 	"fmt"
 	"io"
@@ -94,10 +100,45 @@ func userVal(val int64) any {
 var errNotFound = errors.New("verif: not found")
 
 func mkErr(e int64) error {
-	if e == 0 {
+	switch e {
+	case 0:
 		return nil
+	case 30:
+		return context.Canceled
+	case 31:
+		return context.DeadlineExceeded
+	case 32:
+		return fmt.Errorf("loader: %w", context.Canceled)
+	case 33:
+		return fmt.Errorf("loader: %w", context.DeadlineExceeded)
 	}
 	return codeErr(e)
+}
+
+// manualCtx is a context that is cancelled / whose deadline "passes" when the executor says so.
+type manualCtx struct {
+	mu   sync.Mutex
+	done chan struct{}
+	err  error
+}
+
+func newManualCtx() *manualCtx { return &manualCtx{done: make(chan struct{})} }
+
+func (c *manualCtx) Deadline() (time.Time, bool) { return time.Time{}, false }
+func (c *manualCtx) Done() <-chan struct{}       { return c.done }
+func (c *manualCtx) Value(any) any               { return nil }
+func (c *manualCtx) Err() error {
+	c.mu.Lock()
+	defer c.mu.Unlock()
+	return c.err
+}
+func (c *manualCtx) finish(err error) {
+	c.mu.Lock()
+	defer c.mu.Unlock()
+	if c.err == nil {
+		c.err = err
+		close(c.done)
+	}
 }
 
 func errCode(err error) int64 {
@@ -110,6 +151,12 @@ func errCode(err error) int64 {
 	}
 	if errors.Is(err, errNotFound) {
 		return codeNotFound
+	}
+	if errors.Is(err, context.Canceled) {
+		return 30
+	}
+	if errors.Is(err, context.DeadlineExceeded) {
+		return 31
 	}
 	return -1
 }
@@ -377,8 +424,25 @@ func runCase(c Case) (out Out) {
 			ctl.Log(tid, "ret", i, asInt(v), errCode(err), -1)
 		case 5, 8:
 			var got int64 = -1
+			mode := int64(0)
+			if len(op) > 4 {
+				mode = op[4]
+			}
+			var cx *manualCtx
+			if mode != 0 {
+				cx = newManualCtx()
+			}
+			if mode == 4 {
+				cx.finish(context.Canceled)
+				ctl.Log(tid, "ctxdone", i)
+			}
 			query := func(v any) error {
 				body(tid, i, 5, key, e)
+				if mode == 2 {
+					cx.finish(context.Canceled)
+				} else if mode == 3 {
+					cx.finish(context.DeadlineExceeded)
+				}
 				if e == codeNotFound {
 					return errNotFound
 				}
@@ -391,16 +455,23 @@ func runCase(c Case) (out Out) {
 				*(v.(*int64)) = val
 				return nil
 			}
+			_ = cx
 			var err error
-			if kind == 5 {
+			queryx := func(v any, expire time.Duration) error {
+				if expire <= 0 {
+					return codeErr(-77)
+				}
+				return query(v)
+			}
+			switch {
+			case kind == 5 && cx == nil:
 				err = in.node.Take(&got, ks, query)
-			} else {
-				err = in.node.TakeWithExpire(&got, ks, func(v any, expire time.Duration) error {
-					if expire <= 0 {
-						return codeErr(-77)
-					}
-					return query(v)
-				})
+			case kind == 5:
+				err = in.node.TakeCtx(cx, &got, ks, query)
+			case cx == nil:
+				err = in.node.TakeWithExpire(&got, ks, queryx)
+			default:
+				err = in.node.TakeWithExpireCtx(cx, &got, ks, queryx)
 			}
 			if err != nil {
 				got = -1
